@@ -801,6 +801,54 @@ theorem noEnumAt_congr (J J' : JsonEnv) (env : Env) (h2 : J.anyTypes = J'.anyTyp
     unfold noEnumField noEnumMsg
     rw [h2]
 
+/-! ## the object written for a message is a finite map -/
+
+theorem fieldsJson_keys (fj : Field → Val → Json) : ∀ (fs : List Field) (vs : List Val), fs.length = vs.length →
+    (fieldsJson fj fs vs).map Prod.fst = fs.map (·.name) := by
+  intro fs
+  induction fs with
+  | nil => intro vs _; cases vs <;> rfl
+  | cons f fs ih =>
+    intro vs hl
+    cases vs with
+    | nil => simp at hl
+    | cons v vs => simp only [fieldsJson, List.map_cons, ih vs (by simpa using hl)]
+
+theorem namesOK_nodup : ∀ (ns : List String), namesOK ns = true → ns.Nodup ∧ typeKey ∉ ns := by
+  intro ns
+  induction ns with
+  | nil => intro _; exact ⟨List.nodup_nil, by simp⟩
+  | cons n ns ih =>
+    intro h
+    simp only [namesOK, Bool.and_eq_true, bne_iff_ne, ne_eq, Bool.not_eq_true', List.contains_eq_mem, decide_eq_false_iff_not] at h
+    obtain ⟨⟨h1, h2⟩, h3⟩ := h
+    have := ih h3
+    refine ⟨List.nodup_cons.2 ⟨h2, this.1⟩, ?_⟩
+    simp only [List.mem_cons, not_or]
+    exact ⟨fun e => h1 e.symm, this.2⟩
+
+/-- The object written for a message has pairwise distinct member names, none of them `"@type"`: it is a finite map
+(so the first-match reading of `getKey` and Go's last-match reading of a JSON object agree on it), and prefixing
+`"@type"` for an `Any` keeps it one. -/
+theorem toJsonAt_members_distinct (J : JsonEnv) (env : Env) (k : Nat) (d : MsgDesc) (v : Val)
+    (hwf : jwfAt J env k d = true) (hc : jcanonAt J env k d v = true) :
+    ∃ kvs, toJsonAt J env k d v = .obj kvs ∧ (kvs.map Prod.fst).Nodup ∧ typeKey ∉ kvs.map Prod.fst := by
+  cases k with
+  | zero => simp [jwfAt] at hwf
+  | succ k =>
+    cases v with
+    | msg vs =>
+      simp only [jwfAt, Bool.and_eq_true] at hwf
+      simp only [jcanonAt] at hc
+      refine ⟨_, rfl, ?_⟩
+      rw [fieldsJson_keys _ _ _ (jcanonFields_length _ _ _ hc)]
+      exact namesOK_nodup _ hwf.1
+    | varint _ => simp [jcanonAt] at hc
+    | bytes _ => simp [jcanonAt] at hc
+    | int _ => simp [jcanonAt] at hc
+    | none => simp [jcanonAt] at hc
+    | list _ => simp [jcanonAt] at hc
+
 /-! ## the `Status` leaf, over the regenerated tables -/
 
 /-- The text starts with a byte that is neither a digit nor `-`. -/
